@@ -122,6 +122,15 @@ def handle (ws : List String) : String :=
       match unhex hx >>= Sexp.parse with
       | some s => runGeomComp s
       | none => "err bad-sexp"
+  | "latarg" :: opts =>
+      -- parse_lattice on the --lattice options (each in hex)
+      (match opts.mapM unhex with
+       | none => "err bad-hex"
+       | some os =>
+         match LA.parseLattice (os.map String.toList) with
+         | .error e => "ok error " ++ e.name
+         | .ok d => "ok " ++ " ".intercalate (d.map fun (c, rs) =>
+             s!"{c}=" ++ ",".intercalate (rs.map fun (lo, hi) => s!"{lo}:{hi}")))
   | ["compmodel", hx] =>
       match unhex hx >>= Sexp.parse with
       | some s => runCompModel s
